@@ -41,6 +41,7 @@ mod c16;
 mod c13;
 mod c15;
 mod c14;
+mod e2e;
 
 use common::*;
 
@@ -72,6 +73,10 @@ fn main() {
     "c14-worker" => {
       if args.len() < 5 { usage(); }
       std::process::exit(c14::worker(&args[2], args[3].parse().unwrap(), args[4].parse().unwrap()));
+    }
+    "e2e-ns-worker" => {
+      if args.len() < 4 { usage(); }
+      std::process::exit(e2e::ns_worker(&args[2], &args[3]));
     }
     "c15-ns-worker" => { std::process::exit(c15::ns_worker()); }
     "replay" => {
